@@ -251,7 +251,8 @@ def _check_reader(data, expected, layout, doc, obs, label, want=None):
         obs.violation('%s:%s' % (label, d[0]), doc,
                       dict(d[1], encoding_stack_probe=probe_note))
         return
-    # the same reader object over the rewound stream: scopes start afresh
+    # the same reader object over the rewound stream (diagnostic only: no
+    # property defines a second iteration of one reader object)
     if len(data) < 4000 and (hash(data) % 4 == 0 or
                              doc.get('encoding') is None):
         import io
@@ -262,18 +263,12 @@ def _check_reader(data, expected, layout, doc, obs, label, want=None):
                 pass
             fp.seek(0)
             again = [common.project(r) for r in rd]
-        except Exception as e:
-            obs.violation('%s:second_iteration_raised:%s' % (
-                label, type(e).__name__), doc, repr(e)[:200])
-            return
-        obs.count('reiterations_compared')
-        ign = ('line', 'length') if (
-            want is not None and data != want and
-            common.bytes_equivalent(data, want, layout)[0]) else ('line',)
-        d = common.diff_records(expected, again, ignore=ign)
-        if d is not None:
-            obs.violation('%s:second_iteration:%s' % (label, d[0]), doc,
-                          d[1])
+            obs.count('reiterations_compared')
+            if common.diff_records(expected, again,
+                                   ignore=('line', 'length')):
+                obs.count('second_iteration_differs(diagnostic)')
+        except Exception:
+            obs.count('second_iteration_differs(diagnostic)')
 
 
 def _container_eff(layout, sec):
